@@ -1,5 +1,7 @@
 # -*- coding: utf-8 -*-
 
+import copy
+
 from vsg import parser, violation
 from vsg.rule_group import structure
 from vsg.rules import utils as rules_utils
@@ -67,8 +69,8 @@ class insert_token_right_of_token_if_it_does_not_exist_before_token(structure.Ru
             rules_utils.remove_optional_item(oViolation, self.insert_token)
         else:
             if isinstance(lTokens[1], parser.whitespace) and isinstance(lTokens[2], parser.semicolon):
-                rules_utils.insert_token(lTokens, 2, self.insert_token)
+                rules_utils.insert_token(lTokens, 2, copy.deepcopy(self.insert_token))
             else:
-                rules_utils.insert_token(lTokens, 1, self.insert_token)
+                rules_utils.insert_token(lTokens, 1, copy.deepcopy(self.insert_token))
                 rules_utils.insert_whitespace(lTokens, 1)
             oViolation.set_tokens(lTokens)
